@@ -89,6 +89,50 @@ macro_rules! assert_eq_ignore_ws {
     };
 }
 
+/// Converts the value notation of a `GeneralizedTime`
+/// (`YYYYMMDDhh[mm[ss[.f]]](Z|+hh[mm]|-hh[mm])`) into an RFC 3339 date-time.
+/// `UTCTime` values have been brought into that notation by the linker.
+/// Local times have no RFC 3339 counterpart.
+fn time_value_to_rfc3339(value: &str) -> Option<String> {
+    let (date_time, offset) = value.split_at(value.find(['Z', '+', '-'])?);
+    let offset = match offset {
+        "Z" => "Z".to_owned(),
+        o if o.is_ascii() && o.len() == 5 => format!("{}:{}", &o[..3], &o[3..]),
+        o if o.is_ascii() && o.len() == 3 => format!("{o}:00"),
+        _ => return None,
+    };
+    let (digits, fraction) = match date_time.split_once(['.', ',']) {
+        Some((d, f)) => (d, Some(f)),
+        None => (date_time, None),
+    };
+    if !digits.bytes().all(|b| b.is_ascii_digit())
+        || fraction.is_some_and(|f| f.is_empty() || !f.bytes().all(|b| b.is_ascii_digit()))
+    {
+        return None;
+    }
+    let (year, month, day, hour) = (
+        digits.get(..4)?,
+        digits.get(4..6)?,
+        digits.get(6..8)?,
+        digits.get(8..10)?,
+    );
+    let (minute, second) = match digits.len() {
+        10 => ("00", "00"),
+        12 => (digits.get(10..12)?, "00"),
+        14 => (digits.get(10..12)?, digits.get(12..14)?),
+        _ => return None,
+    };
+    let fraction = match fraction {
+        // only fractions of a second
+        Some(f) if digits.len() == 14 => format!(".{f}"),
+        Some(_) => return None,
+        None => String::new(),
+    };
+    Some(format!(
+        "{year}-{month}-{day}T{hour}:{minute}:{second}{fraction}{offset}"
+    ))
+}
+
 impl Rasn {
     pub(crate) fn inner_name(&self, name: &str, parent_name: &str) -> Ident {
         format_ident!(
@@ -889,10 +933,25 @@ impl Rasn {
                 Ok(self.to_rust_const_case(e).to_token_stream())
             }
             ASN1Value::ObjectIdentifier(oid) => self.format_oid(oid),
-            ASN1Value::Time(t) => match type_name {
-                Some(time_type) => Ok(quote!(#t.parse::<#time_type>().unwrap())),
-                None => Ok(quote!(#t.parse::<_>().unwrap())),
-            },
+            ASN1Value::Time(t) => {
+                // chrono parses RFC 3339 date-times, not the ASN.1 notation
+                let t = time_value_to_rfc3339(t).ok_or_else(|| {
+                    error!(
+                        NotYetInplemented,
+                        "Time values like \"{t}\" (local time, fractions of hours or minutes) are currently unsupported!"
+                    )
+                })?;
+                match type_name {
+                    // a type that references a time type wraps the parsed value
+                    Some(time_type)
+                        if ["UtcTime", "GeneralizedTime"]
+                            .contains(&time_type.to_string().as_str()) =>
+                    {
+                        Ok(quote!(#t.parse::<#time_type>().unwrap()))
+                    }
+                    _ => Ok(quote!(#t.parse::<_>().unwrap())),
+                }
+            }
             ASN1Value::LinkedArrayLikeValue(seq) => {
                 let elems = seq
                     .iter()
